@@ -59,6 +59,13 @@ CHECKS = {
              "the tally accepts only if distinct validators with logged successful signature checks over this commit's canonical vote hold > 2/3 (bounded to 2 validators x 2 signatures).",
         note="Trusted: Verus/Z3, Kani/CBMC, ed25519 as an opaque predicate, tendermint/moka stand-ins. Not under contract: RPC fetching, reconstruct/convert (Merkle binding of rollup data is C07/C08).",
     ),
+    "C14": dict(
+        category="proof",
+        technique="Kani loop-free harnesses on the extracted CheckedValidatorUpdate::do_run_mutable_checks/execute (post-Aspen branch) against a symbolic store; split obligation for the known finding K1",
+        text="execute == Ok implies: signer is the current sudo; the validator entry, the stored count and the block's update entry for the key change together (count changes exactly as membership does, so count == size is preserved); "
+             "a removal requires the validator to exist and count > 1 (never empties the set); only these three keys are written. The obligation that a reported removal names a validator CometBFT has is a listed known finding (K1).",
+        note=KANI_TB + " Pre-Aspen branch, ValidatorSet::apply_updates, authority end_block and App::end_block (return-and-clear) are not under contract; precondition count < u64::MAX.",
+    ),
     "C15": dict(
         category="proof",
         technique="Verus contracts on the extracted price_feed::utils::median and Price arithmetic (sort specified as sorted permutation)",
